@@ -131,8 +131,17 @@ def component_record(c):
         else:
             dims[d] = None if raw is None else float(raw)
     nd = {k: float(v) for k, v in sorted(c.getNumberDensities().items())}
+    mat = c.material
+    extra = {}
+    for fn in ("getTD",):
+        if hasattr(mat, fn):
+            try:
+                extra[fn] = float(getattr(mat, fn)())
+            except Exception as e:  # noqa: BLE001
+                extra[fn] = "err:" + type(e).__name__
     return {
         "material": type(c.material).__name__,
+        "materialState": extra,
         "Tinput": float(c.inputTemperatureInC),
         "Thot": float(c.temperatureInC),
         "dims": dims,
